@@ -228,21 +228,30 @@ def _one_hot_batch_rule(
     (x,) = batched_args
     (bd,) = batch_dims
 
+    if bd is None:
+        out = OneHotPlugin._PRIM.bind(
+            x,
+            num_classes=num_classes,
+            dtype=dtype,
+            axis=axis,
+        )
+        return out, None
+
+    # `axis` addresses the output of one example (rank of the example + 1).
+    # Put the batch dimension in front and shift the class axis behind it.
+    if bd != 0:
+        x = jnp.moveaxis(x, bd, 0)
+    example_out_rank = x.ndim
+    axis_int = int(axis)
+    if axis_int < 0:
+        axis_int += example_out_rank
     out = OneHotPlugin._PRIM.bind(
         x,
         num_classes=num_classes,
         dtype=dtype,
-        axis=axis,
+        axis=axis_int + 1,
     )
-    if bd is None:
-        return out, None
-
-    out_rank = x.ndim + 1
-    axis_int = int(axis)
-    if axis_int < 0:
-        axis_int += out_rank
-    out_bd = bd + 1 if axis_int <= bd else bd
-    return out, out_bd
+    return out, 0
 
 
 batching.primitive_batchers[OneHotPlugin._PRIM] = _one_hot_batch_rule
